@@ -311,6 +311,12 @@ def check_property(pid, tier, seed):
                 notes.append("driver does not build")
         axioms, problems = ({}, [])
         tie_thms = [("BS.Proofs.GenTie", "BS.Gen." + t) for t in ties] if ties and not tie_broken and not tie_lost else []
+        if tie_thms and gencore_off:
+            # a tie theorem of ANOTHER function is broken: BS.Proofs.GenTie elaborates this property's ties without
+            # an error but produces no compiled module, so they cannot be imported for the axiom audit on this run
+            notes.append("this property's tie theorems (" + ", ".join(ties) + ") elaborated without error, but BS.Proofs.GenTie as a whole does not build "
+                         "(broken / unavailable: " + ", ".join((all_broken + all_lost)[:6]) + "): their axioms are not audited on this run")
+            tie_thms = []
         if lake_ok:
             axioms, problems = audit_axioms(cfg.get("theorems", []) + tie_thms)
             proof_broken += problems
